@@ -44,6 +44,7 @@ type Engine struct {
 	mode         string
 	topVars      map[string]*Val
 	topPkg       *ssa.Package
+	topFrame     *Frame
 }
 
 type KnownFinding struct {
@@ -699,7 +700,7 @@ func (e *Engine) simpleInstr(fr *Frame, st *State, instr ssa.Instruction) (*Val,
 		x := e.operand(fr, st, in.X)
 		switch in.Op {
 		case token.MUL:
-			if x.Addr == nil || (x.Addr.Kind != "global") {
+			if x.Addr == nil {
 				e.safety(fr, st, "nil dereference", not(eq(x.T, "0")), in.Pos())
 			}
 			return e.load(st, x, in.Type())
@@ -718,7 +719,8 @@ func (e *Engine) simpleInstr(fr *Frame, st *State, instr ssa.Instruction) (*Val,
 	case *ssa.Store:
 		p := e.operand(fr, st, in.Addr)
 		v := e.operand(fr, st, in.Val)
-		if p.Addr == nil || p.Addr.Kind != "global" {
+		if p.Addr == nil {
+			// (addresses of fields / elements / globals are derived from a base that was already checked)
 			e.safety(fr, st, "nil dereference", not(eq(p.T, "0")), in.Pos())
 		}
 		if v.Addr != nil && (v.Addr.Kind == "field" || v.Addr.Kind == "elem") {
@@ -830,13 +832,13 @@ func (e *Engine) simpleInstr(fr *Frame, st *State, instr ssa.Instruction) (*Val,
 			return &Val{T: "1", S: sInt, Typ: in.Type(), Addr: &Addr{Kind: "elemfield", Key: x.Addr.Key, Base: x.Addr.Base, Idx: x.Addr.Idx, Struct: ss, Field: in.Field}}, nil
 		}
 		r := &Val{T: fmt.Sprintf("(fieldref %s %d)", x.T, in.Field), S: sInt, Typ: in.Type()}
+		st.assume(not(eq(r.T, "0"))) // the address of a field of a non-nil object is not nil
 		switch ft.Underlying().(type) {
 		case *types.Struct:
 			// nested struct: plain pointer to the sub-object
 			r.Sub = &SubObj{Base: x.T, Struct: ss, Field: in.Field}
-		case *types.Array:
-			return nil, fmt.Errorf("address of array-typed field (outside subset)")
 		default:
+			// (array-typed fields are held as whole array values; indexing through their address is not supported)
 			r.Addr = &Addr{Kind: "field", Key: e.keyField(ss, in.Field), Base: x.T}
 		}
 		return r, nil
@@ -874,6 +876,9 @@ func (e *Engine) simpleInstr(fr *Frame, st *State, instr ssa.Instruction) (*Val,
 			return r, nil
 		case *types.Pointer:
 			at := u.Elem().Underlying().(*types.Array)
+			if x.Addr != nil {
+				return nil, fmt.Errorf("indexing through the address of an array-typed field (outside subset)")
+			}
 			e.safety(fr, st, "nil dereference", not(eq(x.T, "0")), in.Pos())
 			e.safety(fr, st, "index out of range", and("(bvsge "+it+" #x0000000000000000)", "(bvslt "+it+" "+bvLit(uint64(at.Len()), 64)+")"), in.Pos())
 			es := e.reg.sortOf(at.Elem())
